@@ -307,11 +307,21 @@ def search(ctx, utils):
         center = float(rng.choice([0.0, 800.0, -800.0, 5000.0, -1e5]))
         ls = [center + float(rng.normal() * 20) if rng.random() > 0.15 else -math.inf for _ in range(k)]
         acc = L(log_val=-math.inf) if rng.random() < 0.5 else L(val=0.0)
+        addends = []
         for l in ls:
             if rng.random() < 0.3 and math.isfinite(l) and abs(l) < 600:
                 acc += math.exp(l)            # mixed with plain numbers
             else:
-                acc += L(log_val=l)
+                addends.append((l, L(log_val=l)))
+                acc += addends[-1][1]
+        # operands are values: accumulating must not change (or alias) any addend
+        for l, obj in addends:
+            if not (obj.log_val == l) or obj is acc:
+                bad += 1
+                ctx.fail("logrep:iadd_mutates_operand", f"after accumulating log-values {ls}, the addend created with log_val {l!r} "
+                         f"has log_val {obj.log_val!r}" + (" and is aliased by the accumulator" if obj is acc else ""),
+                         {"sequence": [repr(x) for x in ls], "addend": repr(l), "now": repr(obj.log_val), "aliased": obj is acc})
+                break
         fin = [l for l in ls if math.isfinite(l)]
         ctx.case(("seq", s))
         ctx.count("search:iadd_sequence")
